@@ -1078,14 +1078,18 @@ Proof.
     intros Hin. apply occ_pos_in in Hin. lia.
 Qed.
 
+Lemma tagged_false_held : forall h' o x, In (x, false) (tagged h' o) -> 1 <= occ x h'.
+Proof.
+  intros h' o x H. unfold tagged in H. apply in_flat_map in H. destruct H as (ev & _ & H).
+  destruct ev as [[| |na rid rb| | |]|]; cbn [about] in H; try contradiction; destruct H as [H|[]].
+  - injection H as H1 H2. subst rid. cbn [is_terminal] in H2. destruct (occ x h'); [discriminate|lia].
+  - injection H as H1 H2. discriminate.
+Qed.
+
 Theorem step_nonterminal_event : forall c h e now d x,
   In (x, false) (tagged (fst (step c h e now d)) (snd (step c h e now d))) ->
   In x (all_rids (fst (step c h e now d))).
-Proof.
-  intros c h e now d x H. unfold tagged in H. apply in_flat_map in H. destruct H as (o & _ & H).
-  destruct o as [[| |na rid rb| | |]|]; cbn [about] in H; try contradiction; destruct H as [H|[]]; inversion H; subst.
-  apply occ_pos_in. cbn [is_terminal] in H2. destruct (occ x (fst (step c h e now d))); [discriminate|lia].
-Qed.
+Proof. intros c h e now d x H. apply occ_pos_in. eapply tagged_false_held. exact H. Qed.
 
 Theorem step_nonterminal_is_partial_nodes : forall c h e now d na x rb,
   (forall y, occ y h + cnt y (new_ids e d) <= 1) ->
@@ -1096,3 +1100,32 @@ Proof.
   intros c h e now d na x rb U H Hin. apply occ_pos_in in Hin.
   eapply (step_nonterminal_is_partial _ _ _ (step_conservation c h e now d) U); [exact H|lia].
 Qed.
+
+(* ------------------------------------------------------------------------------------------ *)
+(* a concrete run: request 100 is answered by a NODES response in two packets (one non-terminal,
+   one terminal event), request 101 is never answered and fails after its retransmission *)
+Local Open Scope N_scope.
+Definition ex_kd : key := mk_key 63 2 9 1 2 true.
+Definition ex_resp (n : nonce) (rid : N) (rb : rbody) : packet := PMsg 2 n 5 (CEnc ex_kd n (MResp rid rb) 5).
+Definition ex_outcome_events : list (event * N * draws) :=
+  [ (EvRequest ex_peer 100 7, 0, ex_draws 50);
+    (EvInbound 20 (PWho (50, 51) 1 0 9), 10, ex_draws 60);
+    (EvInbound 20 (ex_resp (1, 1) 100 (RNodes 2 [])), 20, ex_draws 70);
+    (EvInbound 20 (ex_resp (2, 2) 100 (RNodes 2 [])), 30, ex_draws 80);
+    (EvRequest ex_peer 101 8, 40, ex_draws 90);
+    (EvTick, 5000, ex_draws 100);
+    (EvTick, 10000, ex_draws 110) ].
+
+Example ex_outcome_fresh : NoDup (run_new_ids ex_outcome_events).
+Proof. vm_compute. repeat constructor; cbn; intuition discriminate. Qed.
+
+Example ex_outcome_trace :
+  run_tagged (ex_cfg true) init_state ex_outcome_events = [(100, false); (100, true); (101, true)]
+  /\ all_rids (fst (run (ex_cfg true) init_state ex_outcome_events)) = [].
+Proof. vm_compute. split; reflexivity. Qed.
+
+(* in between, both maps are populated *)
+Example ex_outcome_midway :
+  all_rids (fst (run (ex_cfg true) init_state (firstn 5 ex_outcome_events))) = [101]
+  /\ length (sessions (fst (run (ex_cfg true) init_state (firstn 5 ex_outcome_events)))) = 1%nat.
+Proof. vm_compute. split; reflexivity. Qed.
